@@ -799,6 +799,14 @@ class Interp:
                 return Const(base.fn.name)
             return BoundExt(base, attr)
         if isinstance(base, AbstractExc):
+            ci = self.prog.classes.get(base.base_fq)
+            if ci is not None:
+                types = self.inst_attr_types(ci)
+                if attr in types and ci.find_method(attr) is None:
+                    return Sym(f"{base.label}.{attr}", types[attr])
+                r = self._class_member(ci, attr, base, base.label)
+                if r is not None:
+                    return r
             return Sym(f"{base.key()}.{attr}")
         if isinstance(base, Unknown):
             return Unknown(f"{base.reason}.{attr}")
